@@ -103,10 +103,9 @@ CLAIMED = {
     },
     "C05": {
         "text": "Round-trip theorems, for all data, lengths and random choices: the external-key layer, key-combined byte literals, simple, swap (repeated and "
-                "coinciding positions included), seed, shuffle (any permutation), the string junk wrapper and the byte-array copy. The model decoders are tied "
+                "coinciding positions included), seed, shuffle (any permutation), split (any permutation of states, any case order), the string junk wrapper and the byte-array copy. The model decoders are tied "
                 "to the code by reading the source text each obfuscator emits back into the model's artefact types and evaluating the decoder in Coq, while the "
-                "Go compiler runs the same blocks; a generated program with every literal form and context is built with `garble -literals`. Partial: split's "
-                "decoder is modelled and checked per instance but its general theorem is not proved; proxy.go is only exercised by the real build.",
+                "Go compiler runs the same blocks; a generated program with every literal form and context is built with `garble -literals`. proxy.go is only exercised by the real build.",
         "note": "Trusted: Coq kernel (vm_compute for the 3x256x256 operator tables); lit_extract.py; the Go compiler for the compiled batch. No axioms.",
         "technique": "Coq round-trip proofs of the five codecs + in-Coq decoding of artefacts read from the emitted source + compiled batch + e2e literal program",
     },
